@@ -138,7 +138,7 @@ def enumerate_obligations(g):
         if f is None and not in_as:
             continue
         for (a, b) in split_clauses(g, m, mm.end(), k):
-            text = R.norm_ws(g[a:b])
+            text = R.norm_ws(R.drop_comments(g[a:b]))
             if in_as or (f and f.trusted):
                 if kw in ("ensures", "requires", "returns"):
                     assumed.append(dict(fn=(f.name if f else "assume_specification"), kind=kw, text=text))
@@ -165,15 +165,31 @@ def enumerate_obligations(g):
     return obs, assumed, fns
 
 
-def make_canary(g):
-    """Every non-trusted exec/proof fn with a body gets `ensures false`; each must then fail."""
+def canary_groups(g):
+    """Partition the non-trusted exec/proof functions into groups with no caller/callee pair inside a group
+    (an `ensures false` on a callee would legitimately let its caller prove false)."""
     m = R.mask(g)
-    fns = functions(g, m)
-    ins = []
-    names = []
+    fns = [f for f in functions(g, m) if not (f.trusted or f.mode == "spec" or not f.has_body or f.name == "main")]
+    names = {f.name for f in fns}
+    calls = {}
     for f in fns:
-        if f.trusted or f.mode == "spec" or not f.has_body or f.name == "main":
-            continue
+        body = m[f.sig_end:f.end]
+        calls[f.name] = {n for n in names if n != f.name and re.search(r"\b" + re.escape(n) + r"\s*(::<[^>]*>)?\s*\(", body)}
+    groups = []
+    for f in fns:
+        for grp in groups:
+            if all(f.name not in calls[o.name] and o.name not in calls[f.name] for o in grp):
+                grp.append(f)
+                break
+        else:
+            groups.append([f])
+    return m, groups
+
+
+def make_canary(g, m, group):
+    """Every function of the group gets `ensures false`; each must then be refuted."""
+    ins = []
+    for f in group:
         sig = m[f.kw:f.sig_end]
         e = re.search(r"\bensures\b", sig)
         if e:
@@ -181,9 +197,7 @@ def make_canary(g):
         else:
             dcr = re.search(r"\b(decreases|opens_invariants|no_unwind)\b", sig)
             at = f.kw + dcr.start() if dcr else f.sig_end
-            # a preceding `requires` list may or may not end with a comma; both parse
             ins.append((at, "\n ensures false,\n"))
-        names.append(f.name)
     out = []
     last = 0
     for (p, t) in sorted(ins):
@@ -191,7 +205,7 @@ def make_canary(g):
         out.append(t)
         last = p
     out.append(g[last:])
-    return "".join(out), names
+    return "".join(out)
 
 
 def scan_trusted(g):
@@ -238,7 +252,10 @@ def run_verus(path, rlimit=None, extra=None, timeout=600):
     if vr.get("success") and p.returncode == 0:
         res["status"] = "ok"
     elif vr.get("errors", 0) > 0 and not vr.get("encountered-vir-error"):
-        if any("rlimit" in d["message"].lower() or "resource limit" in d["message"].lower() for d in diags):
+        is_rl = lambda d: "rlimit" in d["message"].lower() or "resource limit" in d["message"].lower()
+        res["rlimit_hits"] = sum(1 for d in diags if is_rl(d))
+        res["diags"] = [d for d in diags if not is_rl(d)]
+        if not res["diags"]:
             res["status"] = "undecided"
             res["reason"] = "solver resource limit"
         else:
@@ -356,22 +373,32 @@ def verify_unit(unit, tier="quick", do_canary=True):
         return out
     out["status"] = "ok"
     if do_canary:
-        cg, names = make_canary(g)
-        cpath = os.path.join(WORK, unit + "_canary.rs")
-        open(cpath, "w", encoding="utf-8").write(cg)
-        cr = run_verus(cpath)
-        failed_fns = set()
-        cm = R.mask(cg)
-        cfns = functions(cg, cm)
-        for d in cr["diags"]:
-            for sp in d.get("spans", []):
-                pos = byte_to_char(cg, sp["byte_start"])
-                for f in cfns:
-                    if f.kw <= pos < f.end:
-                        failed_fns.add(f.name)
-        missing = [n for n in names if n not in failed_fns]
-        out["canary"] = dict(functions=len(names), refuted=len(names) - len(missing), missing=missing, wall=cr["wall"])
-        if cr["status"] != "failed" or missing:
+        m0, groups = canary_groups(g)
+        missing = []
+        total = 0
+        cwall = 0.0
+        reason = ""
+        for gi, grp in enumerate(groups):
+            cg = make_canary(g, m0, grp)
+            cpath = os.path.join(WORK, f"{unit}_canary{gi}.rs")
+            open(cpath, "w", encoding="utf-8").write(cg)
+            cr = run_verus(cpath)
+            cwall += cr["wall"]
+            failed_fns = set()
+            cm = R.mask(cg)
+            cfns = functions(cg, cm)
+            for d in cr["diags"]:
+                for sp in d.get("spans", []):
+                    pos = byte_to_char(cg, sp["byte_start"])
+                    for f in cfns:
+                        if f.kw <= pos < f.end:
+                            failed_fns.add(f.name)
+            total += len(grp)
+            missing += [f.name for f in grp if f.name not in failed_fns]
+            if cr["status"] == "undecided" and cr.get("reason", "").startswith("verus did not reach"):
+                reason = cr["reason"]
+        out["canary"] = dict(functions=total, refuted=total - len(missing), missing=missing, runs=len(groups), wall=round(cwall, 2))
+        if missing:
             out.update(status="undecided",
-                       reason=f"vacuity canary: `ensures false` was NOT refuted for {missing or 'any function'} ({cr.get('reason','')})")
+                       reason=f"vacuity canary: `ensures false` was NOT refuted for {missing} ({reason})")
     return out
